@@ -177,6 +177,10 @@ def run(ctx):
                 else:
                     with open(actp, 'w', encoding='utf-8', newline='') as f:
                         f.write(sa)
+                    # (same modification time as the reference, as after a checkout or an archive extraction:
+                    # the comparison is of contents)
+                    st_ = os.stat(refp)
+                    os.utime(actp, ns=(st_.st_atime_ns, st_.st_mtime_ns))
                     if mode == 2:
                         rt.assertTextFileCorrect(actp, refp, **kw)
                     else:
